@@ -1379,6 +1379,10 @@ func programCase(split [][]lexeme) func(k *h.Case) {
 // ---------------------------------------------------------------------------
 
 // Run is the entry point of the check.
+// Extra, when set, runs additional sub-checks before the verdict (generated
+// whole programs under two layouts, see checks/c19x.go).
+var Extra func(ctx *h.Ctx)
+
 func Run(ctx *h.Ctx) int {
 	if err := poolsOK(); err != nil {
 		ctx.Inconclusive("generator alphabet is wrong: %v", err)
@@ -1414,6 +1418,9 @@ func Run(ctx *h.Ctx) int {
 		"string literals containing raw line breaks are generated only in sub-check collapse (type/literal with the documented collapse to one space; closing quote never first after the break)",
 		"two plain string literals are never adjacent (adjacent quoted parts are one token by definition); U+FFFD and invalid UTF-8 are never generated (property C18)",
 		"a number is never glued to a following letter/digit and an identifier never to a following quote (they would not remain the same two lexemes)",
+	}
+	if Extra != nil {
+		Extra(ctx)
 	}
 	return ctx.Finish(rule, ctx.N(20000, 200000), assumptions)
 }
